@@ -215,10 +215,20 @@ func classifyResponse(b []byte) string {
 				return "invalid"
 			}
 			if et != 12 {
+				// a reader that trusts the schema rather than the element-type byte still decodes this:
+				// neither clearly valid nor clearly invalid
 				odd = true
-				for i := 0; i < n && p >= 0; i++ {
-					p = skip(p, et, 1)
+				q := p
+				for i := 0; i < n && q >= 0; i++ {
+					q = generated(q)
 				}
+				if q < 0 {
+					q = p
+					for i := 0; i < n && q >= 0; i++ {
+						q = skip(q, et, 1)
+					}
+				}
+				p = q
 			} else {
 				for i := 0; i < n && p >= 0; i++ {
 					p = generated(p)
@@ -236,9 +246,21 @@ func classifyResponse(b []byte) string {
 			}
 			if et != 11 {
 				odd = true
-			}
-			for i := 0; i < n && p >= 0; i++ {
-				p = skip(p, et, 1)
+				q := p
+				for i := 0; i < n && q >= 0; i++ {
+					q = skip(q, 11, 1)
+				}
+				if q < 0 {
+					q = p
+					for i := 0; i < n && q >= 0; i++ {
+						q = skip(q, et, 1)
+					}
+				}
+				p = q
+			} else {
+				for i := 0; i < n && p >= 0; i++ {
+					p = skip(p, et, 1)
+				}
 			}
 		default:
 			odd = true
